@@ -265,6 +265,19 @@ def relabel(ctx, struct, how, dim, appended=()):
         full = list(st['labels'][dim])
         full[0] = new[0]
         f = lambda: ds.axes[list(ds.dims).index(dim)].__setitem__(0, new[0])
+    elif how in ('set_axis-callable-otherkind', 'var.set_axis-callable-otherkind'):
+        # a mapper that renames ONE label to a label of another kind: the other labels keep their own type
+        old = list(st['labels'][dim])
+        other = 'first' if kind != 'U' else 7
+        full = [other] + old[1:]
+
+        def mapper1(l):
+            return other if l == old[0] else l
+        if how == 'set_axis-callable-otherkind':
+            f = lambda: ds.set_axis(mapper1, axis=dim)
+        else:
+            k = [k for k in st['vars'] if dim in st['vars'][k].dims][0]
+            f = lambda: ds[k].set_axis(mapper1, axis=dim)
     elif how in ('set_axis-callable', 'var.set_axis-callable', 'axis.set-callable'):
         # a mapper applied to every label: old label -> new label at the same position (labels are not hashed)
         old = list(st['labels'][dim])
@@ -471,7 +484,7 @@ def templates():
         for dim in dims:
             for how in ('axis.name', 'ds.dims', 'set_axis', 'rename_axes', 'rename_axes_fn', 'var.axis.name', 'var.dims', 'rename_axes_copy'):
                 add('rename-%s-%s-%s' % (sname, dim, how), 'rename', cost=0.2, struct=sname, how=how, dim=dim)
-            for how in ('axes[d]=Axis-renamed', 'set_axis-callable', 'var.set_axis-callable', 'axis.set-callable', 'axes[d]=Axis', 'axes[pos]=Axis', 'axes[negpos]=Axis', 'axes[pos][i]=label', 'axes[d]=values', 'axes[d][i]=label', 'set_axis', 'set_axis_pos', 'attr', 'axis.values', 'var.axis[i]', 'var.set_axis', 'set_axis_copy', 'var.labels', 'var.attr'):
+            for how in ('set_axis-callable-otherkind', 'var.set_axis-callable-otherkind', 'axes[d]=Axis-renamed', 'set_axis-callable', 'var.set_axis-callable', 'axis.set-callable', 'axes[d]=Axis', 'axes[pos]=Axis', 'axes[negpos]=Axis', 'axes[pos][i]=label', 'axes[d]=values', 'axes[d][i]=label', 'set_axis', 'set_axis_pos', 'attr', 'axis.values', 'var.axis[i]', 'var.set_axis', 'set_axis_copy', 'var.labels', 'var.attr'):
                 add('relabel-%s-%s-%s' % (sname, dim, how), 'relabel', cost=0.3, struct=sname, how=how, dim=dim)
             add('wrongsize-%s-%s' % (sname, dim), 'wrong_size', cost=0.2, struct=sname, dim=dim)
             for how in ('setitem-label', 'ix', 'values', 'fill', 'put', 'imul'):
